@@ -59,6 +59,9 @@ def presentations(t, cif2):
     P = []
     if bare_ok(t, cif2):
         P.append(('bare', t))
+    elif t.startswith(';') and len(t) < 100 and bare_ok('x' + t[1:], cif2):
+        # a whitespace-delimited value may begin with a semicolon anywhere but at the start of a line
+        P.append(('bare-semi', t))
     oneline = '\n' not in t
     if cif2:
         if oneline and "'" not in t:
@@ -106,7 +109,7 @@ def tokens(cif2, tier):
         if not cif2 and (len(t) > 100):
             continue
         for style, text in presentations(t, cif2):
-            q = 0 if style == 'bare' else 1
+            q = 0 if style in ('bare', 'bare-semi') else 1
             if not cif2 and style == 'bare' and any(c in '[]{}' for c in t):
                 q = 1       # could not be presented unquoted in CIF 2.0: reported as quoted
             T.append((('s', t, q), style, text))
@@ -211,6 +214,8 @@ def work(chunk, cif2, tier):
                 toks = (T[i], T[j])
                 if struct in ('list', 'table', 'nested') and not cif2:
                     continue
+                if sep.endswith('\n') and any(tk[1] == 'bare-semi' for tk in toks):
+                    continue        # at the start of a line the semicolon would open a text field
                 if '\n' not in sep and (len(toks[0][2]) > 1000 or len(toks[1][2]) > 1000):
                     continue        # a long token gets a line of its own (lines must stay within 2048 characters)
                 text, exp = build_doc(struct, toks, sep, cif2, header)
@@ -286,6 +291,8 @@ def work3(chunk, cif2):
         for k in range(len(T)):
             for sep in seps:
                 toks = (T[i], T[j], T[k])
+                if sep.endswith('\n') and any(tk[1] == 'bare-semi' for tk in toks):
+                    continue
                 text, exp = build_doc3(struct, toks, sep, cif2)
                 if max(len(l) for l in text.split('\n')) > 2048:
                     continue
